@@ -53,4 +53,15 @@ Proof.
   - exact (contract_no_ub A r H).
 Qed.
 
-Ltac solve_returns_ok lem := eexists; (apply lem || eapply lem); eauto.
+(* [ok_from H]: closes a goal [returns_ok r] / [no_ub r] / [is_some o] from a hypothesis that contains, under
+   conjunctions and existentials, an equation [r = Ok _] ([r = Contract], [o = Some _]); robust against regrouping
+   of the imported theorems *)
+Ltac ok_from H :=
+  lazymatch type of H with
+  | _ /\ _ => let A := fresh "A" in let B := fresh "B" in destruct H as [A B]; first [ok_from A | ok_from B]
+  | exists _, _ => let x := fresh "x" in let A := fresh "A" in destruct H as [x A]; ok_from A
+  | _ = Ok _ => first [eapply ok_returns_ok; exact H | eapply ok_no_ub; exact H]
+  | _ = Contract => apply contract_no_ub; exact H
+  | _ = Some _ => eapply some_intro; exact H
+  | _ => fail "no equation"
+  end.
